@@ -129,7 +129,18 @@ def replay_case(col, item):
     from typhon.collocations.collocator import concat_collocations
     case, n, tier = item
     a, b = case["a"], case["b"]
-    tile = 1 if n % 9 else 260                      # >= 1000 pairs: the alternative row-assignment path
+    def scattered(pairs, side):
+        seen, last = set(), None
+        for pr in pairs:
+            r = pr[side]
+            if r != last and r in seen:
+                return True
+            seen.add(r)
+            last = r
+        return False
+    # >= 1000 pairs (the alternative row-assignment path): every 9th case, and every case in which the pairs of
+    # some reference point are NOT adjacent in the pair list
+    tile = 260 if (n % 9 == 0 or ((scattered(a["pairs"], 0) or scattered(a["pairs"], 1)) and n % 2 == 0)) else 1
     conf = {"tile": tile}
     ds = build(a, tile)
     check_expand(col, a, a["expand"], ds, "expand", conf)
